@@ -200,7 +200,7 @@ func (txn *Txn) Union(columns ...string) *Txn {
 // WithUnion computes a union between all given indexes, and then
 // applies the result to the txn index.
 func (txn *Txn) WithUnion(columns ...string) *Txn {
-	if !txn.setup || len(columns) == 1 {
+	if !txn.setup {
 		return txn.Union(columns...)
 	}
 
